@@ -302,15 +302,33 @@ def run_job(job, tree):
 
 
 def flag_word_single(w):
+    """Replay of one flag word: converted twice in this fresh process (cold, then warm)."""
     from code_data import _flags_data
 
-    out = sched._outcome(lambda: _flags_data.to_flags_data(w))
-    if out[0] != "ok":
-        return []
-    back = sched._outcome(lambda: _flags_data.from_flags_data(set(out[1])))
-    if back[0] == "ok" and back[1] == w:
-        return []
     known_bits = known_flag_bits()
-    if any(((w >> b) & 1) and b not in known_bits for b in range(32)):
-        return ["C11/F2-unrepresentable-bit-dropped/flag-word"]
-    return ["C11/F1-known-flag-word-not-lossless/%s" % ("value-differs" if back[0] == "ok" else back[0])]
+    has_unknown = any(((w >> b) & 1) and b not in known_bits for b in range(32))
+
+    def verdict():
+        out = sched._outcome(lambda: _flags_data.to_flags_data(w))
+        if out[0] != "ok":
+            return ("raises", out[1])
+        back = sched._outcome(lambda: _flags_data.from_flags_data(set(out[1])))
+        if back[0] != "ok":
+            return ("back-raises", back[1])
+        return ("ok", back[1])
+
+    cold = verdict()
+    warm = verdict()
+    got = []
+    if cold != warm:
+        got.append("C11/F3-verdict-depends-on-history/flag-word")
+    for v in (cold, warm):
+        if v[0] == "raises" and has_unknown:
+            continue
+        if v[0] == "ok" and v[1] == w:
+            continue
+        if has_unknown:
+            got.append("C11/F2-unrepresentable-bit-dropped/flag-word")
+        else:
+            got.append("C11/F1-known-flag-word-not-lossless/%s" % ("value-differs" if v[0] == "ok" else v[0]))
+    return sorted(set(got))
